@@ -999,7 +999,7 @@ let zmem x l =
 type consts = { k_status0 : z; k_iter0 : z; k_dt_status : z; k_dt_iter : 
                 z; k_dt_obj : z; k_dt_float : z; k_false : z; k_engine : 
                 z; k_default : z; k_linker_name : z; k_dt_trace_values : 
-                z; k_pyfloat : z }
+                z; k_pyfloat : z; k_single_memo : bool }
 
 type iargs = { ia_span : src; ia_n : nat; ia_strict : z; ia_dtype : z;
                ia_adt : z; ia_default : z; ia_engine : z;
@@ -1183,6 +1183,20 @@ let rec dc_entries h = function
       | None -> None)
    | None -> None)
 
+(** val dc_entries1 :
+    heap -> (z * val0) list -> (heap * (z * val0) list) option **)
+
+let dc_entries1 h cs =
+  match dc_cells (dc (S (length h))) h [] cs with
+  | Some p -> let (p0, cs') = p in let (h', _) = p0 in Some (h', cs')
+  | None -> None
+
+(** val dc_entries_pol :
+    bool -> heap -> (z * val0) list -> (heap * (z * val0) list) option **)
+
+let dc_entries_pol single h cs =
+  if single then dc_entries1 h cs else dc_entries h cs
+
 (** val dict_update :
     (z * val0) list -> (z * val0) list -> (z * val0) list **)
 
@@ -1204,7 +1218,7 @@ let copy_M k h r =
              let n = arr_len h r ((v n_status) :: []) in
              let i = init_M h1 c k (default_iargs k (val_src sp') n) in
              if snd i
-             then (match dc_entries (fst (fst i)) o.ocells with
+             then (match dc_entries_pol k.k_single_memo (fst (fst i)) o.ocells with
                    | Some p0 ->
                      let (h3, cs') = p0 in
                      (match nth_error h3 (snd (fst i)) with
@@ -1317,7 +1331,7 @@ let linker_copy_M k h r =
                      init_M h2 c k (linker_iargs h2 k d' k.k_linker_name)
                    in
                    if snd i
-                   then (match dc_entries (fst (fst i))
+                   then (match dc_entries_pol k.k_single_memo (fst (fst i))
                                  (filter (fun kv ->
                                    negb (Z.eqb (fst kv) (a n_submodels)))
                                    o.ocells) with
@@ -1476,6 +1490,7 @@ type op =
 | OSubListAppend of z * z * z
 | OSubStatus of z * z * z * z
 | OPathAppend of path * z
+| OAliasAttr of z * path
 
 (** val is_empty_trace : heap -> loc -> z -> bool **)
 
@@ -1579,11 +1594,7 @@ let compile_op k h r = function
   in
   app
     (if fresh
-     then trace_cell_acts ((v n_trace) :: []) t
-            (match m with
-             | TMNames -> SAlias ((a n_names) :: [])
-             | TMClass -> SClassRef (a c_TRACE_VARIABLES)
-             | TMUser vs -> new_list vs) k
+     then trace_cell_acts ((v n_trace) :: []) t (new_list names) k
      else []) ((AAppend (((v n_trace) :: (t :: ((a n_index) :: []))),
     (SScalar label))) :: ((ASet (((v n_trace) :: (t :: [])), (a n_values),
     (new_arr k.k_dt_trace_values (app old col)))) :: []))
@@ -1598,6 +1609,15 @@ let compile_op k h r = function
     st))) :: ((ASet (((a n_submodels) :: (k0 :: ((v n_iterations) :: []))),
     t, (SScalar it))) :: [])
 | OPathAppend (p, v0) -> (AAppend (p, (SScalar v0))) :: []
+| OAliasAttr (name, p) ->
+  let x = resolve_alias h r name in
+  if zmem x (scalars_path h r ((a n_index) :: []))
+  then []
+  else if zmem x (scalars_path h r ((a n_attributes) :: []))
+       then (ASet ([], (a x), (SAlias p))) :: []
+       else if Z.eqb (own_scalar h r (a n_strict)) k.k_false
+            then add_attribute_acts x (SAlias p)
+            else []
 
 type state = { sh : heap; sroots : loc list }
 
